@@ -19,7 +19,16 @@ type Sink struct {
 	Expect func(s string) string
 	// OmittedWhenEmpty: the attribute is left out for the empty string.
 	OmittedWhenEmpty bool
+	// MayBeDropped: the value has a type that spread attributes leave out altogether; if it is
+	// written after all, it must be written as one attribute value like any other.
+	MayBeDropped bool
 }
+
+type namedString string
+
+type stringer struct{ s string }
+
+func (s stringer) String() string { return s.s }
 
 func plain(f func(s string) templ.Component) func(context.Context, string) (context.Context, templ.Component) {
 	return func(ctx context.Context, s string) (context.Context, templ.Component) { return ctx, f(s) }
@@ -65,6 +74,27 @@ var Sinks = []Sink{
 	})},
 	{Name: "SpreadCond", Kind: "spread-string", Make: plain(func(s string) templ.Component {
 		return AttrSpreadCond(templ.Attributes{"title": s, "zz": s}, true)
+	})},
+	{Name: "SpreadSafeURL", Kind: "spread-other-types", MayBeDropped: true, Make: plain(func(s string) templ.Component {
+		return AttrSpread(templ.Attributes{"href": templ.SafeURL(s), "title": "t"})
+	})},
+	{Name: "SpreadURL", Kind: "spread-other-types", MayBeDropped: true, Expect: func(s string) string { return string(templ.URL(s)) }, Make: plain(func(s string) templ.Component {
+		return AttrSpread(templ.Attributes{"href": templ.URL(s), "title": "t"})
+	})},
+	{Name: "SpreadSafeCSS", Kind: "spread-other-types", MayBeDropped: true, Make: plain(func(s string) templ.Component {
+		return AttrSpread(templ.Attributes{"style": templ.SafeCSS(s), "title": "t"})
+	})},
+	{Name: "SpreadNamedString", Kind: "spread-other-types", MayBeDropped: true, Make: plain(func(s string) templ.Component {
+		return AttrSpread(templ.Attributes{"data-n": namedString(s), "title": "t"})
+	})},
+	{Name: "SpreadStringer", Kind: "spread-other-types", MayBeDropped: true, Make: plain(func(s string) templ.Component {
+		return AttrSpread(templ.Attributes{"data-s": stringer{s}, "title": "t"})
+	})},
+	{Name: "SpreadBytes", Kind: "spread-other-types", MayBeDropped: true, Make: plain(func(s string) templ.Component {
+		return AttrSpread(templ.Attributes{"data-b": []byte(s), "title": "t"})
+	})},
+	{Name: "SpreadKVSafeURL", Kind: "spread-other-types", MayBeDropped: true, Make: plain(func(s string) templ.Component {
+		return AttrSpread(templ.Attributes{"href": templ.KV(templ.SafeURL(s), true), "title": "t"})
 	})},
 	{Name: "ClassString", Kind: "class", Make: plain(func(s string) templ.Component { return ClassString(s) })},
 	{Name: "ClassMixed", Kind: "class", Make: plain(func(s string) templ.Component { return ClassMixed(s) })},
